@@ -226,3 +226,64 @@ pub proof fn lemma_div_mod_unique(x: int, d: int, q: int, r: int)
 {
     vstd::arithmetic::div_mod::lemma_fundamental_div_mod_converse(x, d, q, r);
 }
+
+// ---- floor division (mathematical): the unique q, r with x == q*y + r, r between 0 and y (0 <= |r| < |y|, sign of y)
+pub open spec fn floor_quot(x: int, y: int) -> int
+    recommends y != 0
+{
+    if y > 0 { x / y } else { (-x) / (-y) }
+}
+
+pub open spec fn floor_rem(x: int, y: int) -> int
+    recommends y != 0
+{
+    if y > 0 { x % y } else { -((-x) % (-y)) }
+}
+
+pub proof fn lemma_floor_div_props(x: int, y: int)
+    requires y != 0
+    ensures
+        floor_quot(x, y) * y + floor_rem(x, y) == x,
+        y > 0 ==> 0 <= floor_rem(x, y) < y,
+        y < 0 ==> y < floor_rem(x, y) <= 0,
+{
+    if y > 0 {
+        vstd::arithmetic::div_mod::lemma_fundamental_div_mod(x, y);
+        vstd::arithmetic::div_mod::lemma_mod_bound(x, y);
+        assert((x / y) * y == y * (x / y)) by (nonlinear_arith);
+    } else {
+        let q = (-x) / (-y);
+        let r = (-x) % (-y);
+        vstd::arithmetic::div_mod::lemma_fundamental_div_mod(-x, -y);
+        vstd::arithmetic::div_mod::lemma_mod_bound(-x, -y);
+        assert(q * y == -((-y) * q)) by (nonlinear_arith);
+    }
+}
+
+/// what Rust's truncating `/`, `%` plus the usual fix-up step compute
+pub proof fn lemma_trunc_to_floor(x: int, y: int)
+    requires y != 0
+    ensures
+        ({
+            let q = trunc_div(x, y);
+            let r = trunc_rem(x, y);
+            let adjust = (r > 0 && y < 0) || (r < 0 && y > 0);
+            floor_quot(x, y) == (if adjust { q - 1 } else { q }) && floor_rem(x, y) == (if adjust { r + y } else { r })
+        }),
+{
+    lemma_trunc_div_rem(x, y);
+    let q = trunc_div(x, y);
+    let r = trunc_rem(x, y);
+    let adjust = (r > 0 && y < 0) || (r < 0 && y > 0);
+    let fq = if adjust { q - 1 } else { q };
+    let fr = if adjust { r + y } else { r };
+    assert(fq * y + fr == x) by (nonlinear_arith) requires x == q * y + r, fq == (if adjust { q - 1 } else { q }), fr == (if adjust { r + y } else { r });
+    if y > 0 {
+        assert(0 <= fr < y);
+        lemma_div_mod_unique(x, y, fq, fr);
+    } else {
+        assert(y < fr <= 0);
+        assert(-x == fq * (-y) + (-fr)) by (nonlinear_arith) requires fq * y + fr == x;
+        lemma_div_mod_unique(-x, -y, fq, -fr);
+    }
+}
